@@ -20,10 +20,16 @@ def escChar (c : Char) : Str :=
 
 def escape (s : Str) : Str := s.flatMap escChar
 
-/-- an argument may be written without quotes when it is non-empty, has no white space
-    (Unicode) and no `#`, and does not start with `"` or `=` -/
+/-- an argument may be written without quotes when it is non-empty, has no space and no `#`,
+    does not start or end with a white-space character (the line is trimmed with Unicode white
+    space), and does not start with `"` or `=`.  White space other than the space character in the
+    MIDDLE of an unquoted argument is allowed: only ' ' separates tokens (tab, CR and LF are written
+    as `\t`, `\r`, `\n` by `escape`; the other white-space characters are written raw). -/
 def canUnquote (s : Str) : Bool :=
-  !s.isEmpty && s.all (fun c => !isWs c && c != '#') && s.head? != some '"' && s.head? != some '='
+  !s.isEmpty && s.all (fun c => c != ' ' && c != '#') &&
+    (match s.head? with | some c => !isWs c | none => true) &&
+    (match s.getLast? with | some c => !isWs c | none => true) &&
+    s.head? != some '"' && s.head? != some '='
 
 /-- `q` = "quote although it is optional" -/
 def renderArg (q : Bool) (s : Str) : Str :=
